@@ -175,4 +175,5 @@ def ops_for(ty):
             add(o, 'P', 'P', f'x.{o}()', f'crate.p32e2.math.sleef.{o} x', None, 'C15')
         for o in ('atan2', 'hypot'):
             add(o, 'PP', 'P', f'x.{o}(y)', f'crate.p32e2.math.sleef.{o} x y', None, 'C15')
+        add('powf', 'PP', 'P', 'x.powf(y)', 'crate.p32e2.math.P32E2.powf x y', None, 'C15')
     return R
